@@ -4,8 +4,17 @@ Check C20_never_decreases : forall (s : bsys) (evs : list bevent), b_height s <=
 Check C20_catch_up : forall s v evs,
   b_phase s = BPolling \/ b_phase s = BStarting ->
   v <= b_height (brun (fst (bstep s (BvReply (Some v)))) evs).
+Check C20_poll_within_interval : forall pre evs d,
+  b_phase (brun bsys0 pre) = BSleeping d -> POLL_MS <= ticks evs -> In BGetInfo (bouts (brun bsys0 pre) evs).
+Check C20_deadline_window : forall evs, sleep_ok (brun bsys0 evs).
+Check (eq_refl : sleep_ok = fun s => match b_phase s with BSleeping d => b_now s < d <= b_now s + POLL_MS | _ => True end).
+Check (eq_refl : ticks = fix ticks (evs : list bevent) : N := match evs with [] => 0 | BvTick dt :: r => dt + ticks r | _ :: r => ticks r end).
+Check (eq_refl : bouts = fix bouts (s : bsys) (evs : list bevent) {struct evs} : list bout :=
+  match evs with [] => [] | ev :: r => snd (bstep s ev) ++ bouts (fst (bstep s ev)) r end).
 Print Assumptions C20_max.
 Print Assumptions C20_never_decreases.
 Print Assumptions C20_poll_period.
 Print Assumptions C20_catch_up.
 Print Assumptions C20_poll_never_stops.
+Print Assumptions C20_poll_within_interval.
+Print Assumptions C20_deadline_window.
